@@ -7,14 +7,21 @@ package parser
 
 //@ pred LexInv(l) := l != nil && 0 <= l.pos && l.pos <= len(l.input) && l.line >= 1 && l.column >= 1 && l.line <= l.pos + 1 && l.column <= l.pos + 1
 
+//@ pred Pos16(l) := bnd(l.input, l.pos) && l.line == 1 + nlb(l.input, l.pos) && l.column == 1 + u16(l.input, l.pos) - u16(l.input, lsof(l.input, l.pos))
+//@ pred PosOK(s, p) := bnd(s, p.Offset) && p.Line == 1 + nlb(s, p.Offset) && p.Column == 1 + u16(s, p.Offset) - u16(s, lsof(s, p.Offset))
+//@ pred isCurSym(r) := r == '$' || r == '€' || r == '£' || r == '¥' || r == '₽' || r == '₴'
+
 //@ pure (*Lexer).peek (*Lexer).peekRune (*Lexer).position (*Lexer).makeToken (*Lexer).isWhitespace (*Lexer).isDigit (*Lexer).isLetter (*Lexer).isAccountStart (*Lexer).isAccountStartRune (*Lexer).isCurrencySymbol (*Lexer).nextIsCurrencySymbol (*Lexer).nextIsDigit isAccountTerminator isDirective
 
 //@ func (*Lexer).advance
 //@   effects noalloc
 //@   props C06
 //@   requires LexInv(l)
+//@   requires Pos16(l)
 //@   ensures [inv] LexInv(l)
-//@   ensures [step] old(l.pos) < len(l.input) ==> l.pos == old(l.pos) + width(l.input, old(l.pos))
+//@   ensures [C08,C17:pos16] (old(l.pos) >= len(l.input) || l.input[old(l.pos)] != '\n') ==> Pos16(l)
+//@   ensures [C08,C17:bnd] bnd(l.input, l.pos)
+//@   ensures [step] old(l.pos) < len(l.input) ==> l.pos == old(l.pos) + width(l.input, old(l.pos)) && l.pos == step(l.input, old(l.pos))
 //@   ensures [stay] old(l.pos) >= len(l.input) ==> l.pos == old(l.pos) && l.column == old(l.column)
 //@   ensures [C08:col16] old(l.pos) < len(l.input) ==> l.column == old(l.column) + u16w(rune(l.input, old(l.pos)))
 //@   ensures [frame] l.input == old(l.input) && l.line == old(l.line) && l.atStart == old(l.atStart)
@@ -24,12 +31,14 @@ package parser
 //@   effects noalloc
 //@   props C06
 //@   requires LexInv(l)
+//@   requires Pos16(l)
 //@   ensures [inv] LexInv(l)
+//@   ensures [C08,C17:pos16] Pos16(l)
 //@   ensures [spec] l.pos == skipsp(l.input, old(l.pos))
 //@   ensures [col] l.column == old(l.column) + l.pos - old(l.pos)
 //@   ensures [frame] l.input == old(l.input) && l.line == old(l.line) && l.atStart == old(l.atStart)
 //@   modifies l.pos, l.column
-//@   loop 1 invariant LexInv(l) && l.input == old(l.input) && l.line == old(l.line) && l.atStart == old(l.atStart)
+//@   loop 1 invariant LexInv(l) && Pos16(l) && l.input == old(l.input) && l.line == old(l.line) && l.atStart == old(l.atStart)
 //@   loop 1 invariant old(l.pos) <= l.pos && l.pos <= skipsp(l.input, old(l.pos))
 //@   loop 1 invariant l.column == old(l.column) + l.pos - old(l.pos)
 //@   loop 1 decreases len(l.input) - l.pos
@@ -38,14 +47,18 @@ package parser
 //@   effects noalloc
 //@   props C06
 //@   requires LexInv(l) && l.pos < len(l.input)
+//@   requires Pos16(l)
 //@   requires l.input[l.pos] != '\n' && l.input[l.pos] != ';' && l.input[l.pos] != '|'
 //@   ensures [inv] LexInv(l)
+//@   ensures [C08,C17:pos16] Pos16(l)
+//@   ensures [C08,C17:tokpos] PosOK(l.input, result.Pos) && PosOK(l.input, result.End)
+//@   ensures [vallen] len(result.Value) <= len(l.input)
 //@   ensures [progress] l.pos > old(l.pos)
 //@   ensures [span] result.Pos.Offset == old(l.pos) && result.End.Offset == l.pos && result.Type == TokenText
 //@   ensures [posvalid] result.Pos.Line >= 1 && result.Pos.Column >= 1 && result.Pos.Line <= len(l.input) + 1 && result.Pos.Column <= len(l.input) + 1
 //@   ensures [stop] l.pos == len(l.input) || l.input[l.pos] == '\n' || l.input[l.pos] == ';' || l.input[l.pos] == '|'
 //@   modifies l.pos, l.column
-//@   loop 1 invariant LexInv(l) && l.input == old(l.input) && l.atStart == old(l.atStart) && l.line == old(l.line)
+//@   loop 1 invariant LexInv(l) && Pos16(l) && l.input == old(l.input) && l.atStart == old(l.atStart) && l.line == old(l.line)
 //@   loop 1 invariant old(l.pos) <= l.pos && start == old(l.pos) && startPos.Offset == old(l.pos)
 //@   loop 1 invariant l.pos == old(l.pos) ==> l.input[l.pos] != '\n' && l.input[l.pos] != ';' && l.input[l.pos] != '|'
 //@   loop 1 decreases len(l.input) - l.pos
@@ -54,12 +67,16 @@ package parser
 //@   effects noalloc
 //@   props C06
 //@   requires LexInv(l) && l.pos < len(l.input) && l.input[l.pos] >= '0' && l.input[l.pos] <= '9'
+//@   requires Pos16(l)
 //@   ensures [inv] LexInv(l)
+//@   ensures [C08,C17:pos16] Pos16(l)
+//@   ensures [C08,C17:tokpos] PosOK(l.input, result.Pos) && PosOK(l.input, result.End)
+//@   ensures [vallen] len(result.Value) <= len(l.input)
 //@   ensures [progress] l.pos > old(l.pos)
 //@   ensures [span] result.Pos.Offset == old(l.pos) && result.End.Offset == l.pos && result.Type == TokenNumber
 //@   ensures [posvalid] result.Pos.Line >= 1 && result.Pos.Column >= 1 && result.Pos.Line <= len(l.input) + 1 && result.Pos.Column <= len(l.input) + 1
 //@   modifies l.pos, l.column
-//@   loop 1 invariant LexInv(l) && l.input == old(l.input) && l.atStart == old(l.atStart) && l.line == old(l.line)
+//@   loop 1 invariant LexInv(l) && Pos16(l) && l.input == old(l.input) && l.atStart == old(l.atStart) && l.line == old(l.line)
 //@   loop 1 invariant old(l.pos) <= l.pos && start == old(l.pos) && startPos.Offset == old(l.pos)
 //@   loop 1 invariant l.pos == old(l.pos) ==> l.input[l.pos] >= '0' && l.input[l.pos] <= '9'
 //@   loop 1 decreases len(l.input) - l.pos
@@ -68,7 +85,11 @@ package parser
 //@   effects noalloc
 //@   props C06
 //@   requires LexInv(l) && l.pos < len(l.input) && l.input[l.pos] == '\n'
+//@   requires Pos16(l)
 //@   ensures [inv] LexInv(l)
+//@   ensures [C08,C17:pos16] Pos16(l)
+//@   ensures [C08,C17:tokpos] PosOK(l.input, result.Pos) && PosOK(l.input, result.End)
+//@   ensures [vallen] len(result.Value) <= len(l.input)
 //@   ensures [step] l.pos == old(l.pos) + 1 && l.line == old(l.line) + 1 && l.column == 1 && l.atStart
 //@   ensures [span] result.Pos.Offset == old(l.pos) && result.End.Offset == l.pos && result.Type == TokenNewline
 //@   ensures [posvalid] result.Pos.Line >= 1 && result.Pos.Column >= 1 && result.Pos.Line <= len(l.input) + 1 && result.Pos.Column <= len(l.input) + 1
@@ -78,14 +99,18 @@ package parser
 //@   effects noalloc
 //@   props C06
 //@   requires LexInv(l) && l.pos < len(l.input) && l.input[l.pos] == ';'
+//@   requires Pos16(l)
 //@   ensures [inv] LexInv(l)
+//@   ensures [C08,C17:pos16] Pos16(l)
+//@   ensures [C08,C17:tokpos] PosOK(l.input, result.Pos) && PosOK(l.input, result.End)
+//@   ensures [vallen] len(result.Value) <= len(l.input)
 //@   ensures [progress] l.pos > old(l.pos)
 //@   ensures [span] result.Pos.Offset == old(l.pos) && result.End.Offset == l.pos && result.Type == TokenComment
 //@   ensures [posvalid] result.Pos.Line >= 1 && result.Pos.Column >= 1 && result.Pos.Line <= len(l.input) + 1 && result.Pos.Column <= len(l.input) + 1
 //@   ensures [stop] l.pos == len(l.input) || l.input[l.pos] == '\n'
 //@   ensures [noNL] forall k :: {l.input[k]} old(l.pos) <= k && k < l.pos ==> l.input[k] != '\n'
 //@   modifies l.pos, l.column
-//@   loop 1 invariant LexInv(l) && l.input == old(l.input) && l.atStart == old(l.atStart) && l.line == old(l.line)
+//@   loop 1 invariant LexInv(l) && Pos16(l) && l.input == old(l.input) && l.atStart == old(l.atStart) && l.line == old(l.line)
 //@   loop 1 invariant old(l.pos) < l.pos && start == old(l.pos) + 1 && startPos.Offset == old(l.pos)
 //@   loop 1 invariant forall k :: {l.input[k]} old(l.pos) <= k && k < l.pos ==> l.input[k] != '\n'
 //@   loop 1 decreases len(l.input) - l.pos
@@ -94,15 +119,19 @@ package parser
 //@   effects noalloc
 //@   props C06
 //@   requires LexInv(l) && l.pos < len(l.input)
+//@   requires Pos16(l)
 //@   requires rune(l.input, l.pos) != ' ' && rune(l.input, l.pos) != '\t' && rune(l.input, l.pos) != '\n' && rune(l.input, l.pos) != '\r' && rune(l.input, l.pos) != ';' && rune(l.input, l.pos) != '@' && rune(l.input, l.pos) != '=' && rune(l.input, l.pos) != '(' && rune(l.input, l.pos) != ')' && rune(l.input, l.pos) != '[' && rune(l.input, l.pos) != ']'
 //@   ensures [inv] LexInv(l)
+//@   ensures [C08,C17:pos16] Pos16(l)
+//@   ensures [C08,C17:tokpos] PosOK(l.input, result.Pos) && PosOK(l.input, result.End)
+//@   ensures [vallen] len(result.Value) <= len(l.input)
 //@   ensures [progress] l.pos > old(l.pos)
-//@   ensures [span] result.Pos.Offset == old(l.pos) && result.End.Offset == l.pos && result.Type == TokenAccount
+//@   ensures [span] result.Pos.Offset == old(l.pos) && old(l.pos) < result.End.Offset && result.End.Offset <= l.pos && result.Type == TokenAccount
 //@   ensures [posvalid] result.Pos.Line >= 1 && result.Pos.Column >= 1 && result.Pos.Line <= len(l.input) + 1 && result.Pos.Column <= len(l.input) + 1
 //@   ensures [C08:lexeme_exact] result.End.Offset == old(l.pos) + len(result.Value)
 //@   modifies l.pos, l.column
-//@   loop 1 invariant LexInv(l) && l.input == old(l.input) && l.atStart == old(l.atStart) && l.line == old(l.line)
-//@   loop 1 invariant old(l.pos) <= lastNonSpace && lastNonSpace <= l.pos && start == old(l.pos) && startPos.Offset == old(l.pos)
+//@   loop 1 invariant LexInv(l) && Pos16(l) && l.input == old(l.input) && l.atStart == old(l.atStart) && l.line == old(l.line)
+//@   loop 1 invariant old(l.pos) <= lastNonSpace && lastNonSpace <= l.pos && start == old(l.pos) && startPos.Offset == old(l.pos) && endPos.Offset == lastNonSpace && PosOK(l.input, endPos)
 //@   loop 1 invariant l.pos > old(l.pos) ==> lastNonSpace > old(l.pos)
 //@   loop 1 invariant l.pos == old(l.pos) ==> rune(l.input, l.pos) != ' ' && rune(l.input, l.pos) != '\t' && rune(l.input, l.pos) != '\n' && rune(l.input, l.pos) != '\r' && rune(l.input, l.pos) != ';' && rune(l.input, l.pos) != '@' && rune(l.input, l.pos) != '=' && rune(l.input, l.pos) != '(' && rune(l.input, l.pos) != ')' && rune(l.input, l.pos) != '[' && rune(l.input, l.pos) != ']'
 //@   loop 1 decreases len(l.input) - l.pos
@@ -111,7 +140,11 @@ package parser
 //@   effects noalloc
 //@   props C06
 //@   requires LexInv(l)
+//@   requires Pos16(l)
 //@   ensures [inv] LexInv(l)
+//@   ensures [C08,C17:pos16] Pos16(l)
+//@   ensures [C08,C17:tokpos] PosOK(l.input, result.Pos) && PosOK(l.input, result.End)
+//@   ensures [vallen] len(result.Value) <= len(l.input)
 //@   ensures [progress] old(l.pos) < len(l.input) ==> l.pos > old(l.pos)
 //@   ensures [span] old(l.pos) <= result.Pos.Offset && result.Pos.Offset <= result.End.Offset && result.End.Offset <= l.pos
 //@   ensures [posvalid] result.Pos.Line >= 1 && result.Pos.Column >= 1 && result.Pos.Line <= len(l.input) + 1 && result.Pos.Column <= len(l.input) + 1
@@ -186,21 +219,29 @@ package parser
 //@   effects noalloc
 //@   props C06
 //@   requires LexInv(l) && l.pos < len(l.input) && isDig(l.input[l.pos])
+//@   requires Pos16(l)
 //@   ensures [inv] LexInv(l)
+//@   ensures [C08,C17:pos16] Pos16(l)
+//@   ensures [C08,C17:tokpos] PosOK(l.input, result.Pos) && PosOK(l.input, result.End)
+//@   ensures [vallen] len(result.Value) <= len(l.input)
 //@   ensures [progress] l.pos > old(l.pos)
 //@   ensures [span] result.Pos.Offset == old(l.pos) && result.End.Offset == l.pos && result.Type == TokenDate
 //@   ensures [posvalid] result.Pos.Line >= 1 && result.Pos.Column >= 1 && result.Pos.Line <= len(l.input) + 1 && result.Pos.Column <= len(l.input) + 1
 //@   ensures [frame] Frame3(l)
 //@   modifies l.pos, l.column
-//@   loop 1 invariant LexInv(l) && Frame3(l) && old(l.pos) <= l.pos && start == old(l.pos) && startPos.Offset == old(l.pos)
+//@   loop 1 invariant LexInv(l) && Pos16(l) && Frame3(l) && old(l.pos) <= l.pos && start == old(l.pos) && startPos.Offset == old(l.pos)
 //@   loop 1 invariant l.pos == old(l.pos) ==> isDig(l.input[l.pos])
 //@   loop 1 decreases len(l.input) - l.pos
 
 //@ func (*Lexer).scanStatus
 //@   effects noalloc
 //@   props C06
-//@   requires LexInv(l) && l.pos < len(l.input)
+//@   requires LexInv(l) && l.pos < len(l.input) && (l.input[l.pos] == '*' || l.input[l.pos] == '!')
+//@   requires Pos16(l)
 //@   ensures [inv] LexInv(l)
+//@   ensures [C08,C17:pos16] Pos16(l)
+//@   ensures [C08,C17:tokpos] PosOK(l.input, result.Pos) && PosOK(l.input, result.End)
+//@   ensures [vallen] len(result.Value) <= len(l.input)
 //@   ensures [progress] l.pos > old(l.pos)
 //@   ensures [span] result.Pos.Offset == old(l.pos) && result.End.Offset == l.pos && result.Type == TokenStatus
 //@   ensures [posvalid] result.Pos.Line >= 1 && result.Pos.Column >= 1 && result.Pos.Line <= len(l.input) + 1 && result.Pos.Column <= len(l.input) + 1
@@ -211,26 +252,34 @@ package parser
 //@   effects noalloc
 //@   props C06
 //@   requires LexInv(l) && l.pos < len(l.input) && l.input[l.pos] == '('
+//@   requires Pos16(l)
 //@   ensures [inv] LexInv(l)
+//@   ensures [C08,C17:pos16] Pos16(l)
+//@   ensures [C08,C17:tokpos] PosOK(l.input, result.Pos) && PosOK(l.input, result.End)
+//@   ensures [vallen] len(result.Value) <= len(l.input)
 //@   ensures [progress] l.pos > old(l.pos)
 //@   ensures [span] result.Pos.Offset == old(l.pos) && result.End.Offset == l.pos && result.Type == TokenCode
 //@   ensures [posvalid] result.Pos.Line >= 1 && result.Pos.Column >= 1 && result.Pos.Line <= len(l.input) + 1 && result.Pos.Column <= len(l.input) + 1
 //@   ensures [frame] Frame3(l)
 //@   modifies l.pos, l.column
-//@   loop 1 invariant LexInv(l) && Frame3(l) && old(l.pos) < start && start <= l.pos && startPos.Offset == old(l.pos)
+//@   loop 1 invariant LexInv(l) && Pos16(l) && Frame3(l) && old(l.pos) < start && start <= l.pos && startPos.Offset == old(l.pos)
 //@   loop 1 decreases len(l.input) - l.pos
 
 //@ func (*Lexer).scanIndent
 //@   effects noalloc
 //@   props C06
 //@   requires LexInv(l) && l.pos < len(l.input) && l.input[l.pos] != '\n' && (l.input[l.pos] == ' ' || l.input[l.pos] == '\t' || l.input[l.pos] == '\r')
+//@   requires Pos16(l)
 //@   ensures [inv] LexInv(l)
+//@   ensures [C08,C17:pos16] Pos16(l)
+//@   ensures [C08,C17:tokpos] PosOK(l.input, result.Pos) && PosOK(l.input, result.End)
+//@   ensures [vallen] len(result.Value) <= len(l.input)
 //@   ensures [progress] l.pos > old(l.pos)
 //@   ensures [span] result.Pos.Offset == old(l.pos) && result.End.Offset == l.pos && result.Type == TokenIndent
 //@   ensures [posvalid] result.Pos.Line >= 1 && result.Pos.Column >= 1 && result.Pos.Line <= len(l.input) + 1 && result.Pos.Column <= len(l.input) + 1
 //@   ensures [frame] Frame3(l)
 //@   modifies l.pos, l.column
-//@   loop 1 invariant LexInv(l) && Frame3(l) && old(l.pos) <= l.pos && start == old(l.pos) && startPos.Offset == old(l.pos)
+//@   loop 1 invariant LexInv(l) && Pos16(l) && Frame3(l) && old(l.pos) <= l.pos && start == old(l.pos) && startPos.Offset == old(l.pos)
 //@   loop 1 invariant l.pos == old(l.pos) ==> l.input[l.pos] != '\n' && (l.input[l.pos] == ' ' || l.input[l.pos] == '\t' || l.input[l.pos] == '\r')
 //@   loop 1 decreases len(l.input) - l.pos
 
@@ -238,7 +287,12 @@ package parser
 //@   effects noalloc
 //@   props C06
 //@   requires LexInv(l) && l.pos < len(l.input)
+//@   requires Pos16(l)
+//@   requires isCurSym(rune(l.input, l.pos))
 //@   ensures [inv] LexInv(l)
+//@   ensures [C08,C17:pos16] Pos16(l)
+//@   ensures [C08,C17:tokpos] PosOK(l.input, result.Pos) && PosOK(l.input, result.End)
+//@   ensures [vallen] len(result.Value) <= len(l.input)
 //@   ensures [progress] l.pos > old(l.pos)
 //@   ensures [span] result.Pos.Offset == old(l.pos) && result.End.Offset == l.pos && result.Type == TokenCommodity
 //@   ensures [posvalid] result.Pos.Line >= 1 && result.Pos.Column >= 1 && result.Pos.Line <= len(l.input) + 1 && result.Pos.Column <= len(l.input) + 1
@@ -249,20 +303,28 @@ package parser
 //@   effects noalloc
 //@   props C06
 //@   requires LexInv(l) && l.pos < len(l.input) && l.input[l.pos] == '"'
+//@   requires Pos16(l)
 //@   ensures [inv] LexInv(l)
+//@   ensures [C08,C17:pos16] Pos16(l)
+//@   ensures [C08,C17:tokpos] PosOK(l.input, result.Pos) && PosOK(l.input, result.End)
+//@   ensures [vallen] len(result.Value) <= len(l.input)
 //@   ensures [progress] l.pos > old(l.pos)
 //@   ensures [span] result.Pos.Offset == old(l.pos) && result.End.Offset == l.pos && result.Type == TokenCommodity
 //@   ensures [posvalid] result.Pos.Line >= 1 && result.Pos.Column >= 1 && result.Pos.Line <= len(l.input) + 1 && result.Pos.Column <= len(l.input) + 1
 //@   ensures [frame] Frame3(l)
 //@   modifies l.pos, l.column
-//@   loop 1 invariant LexInv(l) && Frame3(l) && old(l.pos) < start && start <= l.pos && startPos.Offset == old(l.pos)
+//@   loop 1 invariant LexInv(l) && Pos16(l) && Frame3(l) && old(l.pos) < start && start <= l.pos && startPos.Offset == old(l.pos)
 //@   loop 1 decreases len(l.input) - l.pos
 
 //@ func (*Lexer).scanAt
 //@   effects noalloc
 //@   props C06
-//@   requires LexInv(l) && l.pos < len(l.input)
+//@   requires LexInv(l) && l.pos < len(l.input) && l.input[l.pos] == '@'
+//@   requires Pos16(l)
 //@   ensures [inv] LexInv(l)
+//@   ensures [C08,C17:pos16] Pos16(l)
+//@   ensures [C08,C17:tokpos] PosOK(l.input, result.Pos) && PosOK(l.input, result.End)
+//@   ensures [vallen] len(result.Value) <= len(l.input)
 //@   ensures [progress] l.pos > old(l.pos)
 //@   ensures [span] result.Pos.Offset == old(l.pos) && result.End.Offset == l.pos && (result.Type == TokenAt || result.Type == TokenAtAt)
 //@   ensures [posvalid] result.Pos.Line >= 1 && result.Pos.Column >= 1 && result.Pos.Line <= len(l.input) + 1 && result.Pos.Column <= len(l.input) + 1
@@ -272,8 +334,12 @@ package parser
 //@ func (*Lexer).scanEquals
 //@   effects noalloc
 //@   props C06
-//@   requires LexInv(l) && l.pos < len(l.input)
+//@   requires LexInv(l) && l.pos < len(l.input) && l.input[l.pos] == '='
+//@   requires Pos16(l)
 //@   ensures [inv] LexInv(l)
+//@   ensures [C08,C17:pos16] Pos16(l)
+//@   ensures [C08,C17:tokpos] PosOK(l.input, result.Pos) && PosOK(l.input, result.End)
+//@   ensures [vallen] len(result.Value) <= len(l.input)
 //@   ensures [progress] l.pos > old(l.pos)
 //@   ensures [span] result.Pos.Offset == old(l.pos) && result.End.Offset == l.pos && (result.Type == TokenEquals || result.Type == TokenDoubleEquals)
 //@   ensures [posvalid] result.Pos.Line >= 1 && result.Pos.Column >= 1 && result.Pos.Line <= len(l.input) + 1 && result.Pos.Column <= len(l.input) + 1
@@ -283,8 +349,12 @@ package parser
 //@ func (*Lexer).scanSign
 //@   effects noalloc
 //@   props C06
-//@   requires LexInv(l) && l.pos < len(l.input)
+//@   requires LexInv(l) && l.pos < len(l.input) && (l.input[l.pos] == '+' || l.input[l.pos] == '-')
+//@   requires Pos16(l)
 //@   ensures [inv] LexInv(l)
+//@   ensures [C08,C17:pos16] Pos16(l)
+//@   ensures [C08,C17:tokpos] PosOK(l.input, result.Pos) && PosOK(l.input, result.End)
+//@   ensures [vallen] len(result.Value) <= len(l.input)
 //@   ensures [progress] l.pos > old(l.pos)
 //@   ensures [span] result.Pos.Offset == old(l.pos) && result.End.Offset == l.pos && result.Type == TokenSign
 //@   ensures [posvalid] result.Pos.Line >= 1 && result.Pos.Column >= 1 && result.Pos.Line <= len(l.input) + 1 && result.Pos.Column <= len(l.input) + 1
@@ -295,38 +365,50 @@ package parser
 //@   effects noalloc
 //@   props C06
 //@   requires LexInv(l) && l.pos < len(l.input) && isLet(l.input[l.pos])
+//@   requires Pos16(l)
 //@   ensures [inv] LexInv(l)
+//@   ensures [C08,C17:pos16] Pos16(l)
+//@   ensures [C08,C17:tokpos] PosOK(l.input, result.Pos) && PosOK(l.input, result.End)
+//@   ensures [vallen] len(result.Value) <= len(l.input)
 //@   ensures [progress] l.pos > old(l.pos)
-//@   ensures [span] result.Pos.Offset == old(l.pos) && result.End.Offset == l.pos && result.Type != TokenEOF
+//@   ensures [span] result.Pos.Offset == old(l.pos) && old(l.pos) < result.End.Offset && result.End.Offset <= l.pos && result.Type != TokenEOF
 //@   ensures [posvalid] result.Pos.Line >= 1 && result.Pos.Column >= 1 && result.Pos.Line <= len(l.input) + 1 && result.Pos.Column <= len(l.input) + 1
 //@   ensures [frame] Frame3(l)
 //@   modifies l.pos, l.column
-//@   loop 1 invariant LexInv(l) && Frame3(l) && start == old(l.pos) && start <= l.pos && startPos.Offset == old(l.pos) && startPos.Column == old(l.column)
+//@   loop 1 invariant LexInv(l) && Pos16(l) && Frame3(l) && start == old(l.pos) && start <= l.pos && startPos.Offset == old(l.pos) && startPos.Column == old(l.column)
 //@   loop 1 invariant l.pos == start ==> l.pos < len(l.input) && isLet(l.input[l.pos])
 //@   loop 1 decreases len(l.input) - l.pos
-//@   loop 2 invariant LexInv(l) && Frame3(l) && start == old(l.pos) && start < l.pos && startPos.Offset == old(l.pos) && startPos.Column == old(l.column) && isLet(l.input[start])
+//@   loop 2 invariant LexInv(l) && Pos16(l) && Frame3(l) && start == old(l.pos) && start < l.pos && startPos.Offset == old(l.pos) && startPos.Column == old(l.column) && isLet(l.input[start])
 //@   loop 2 decreases len(l.input) - l.pos
 
 //@ func (*Lexer).scanCommodityOrText
 //@   effects noalloc
 //@   props C06
 //@   requires LexInv(l) && l.pos < len(l.input) && notTextStop(l.input[l.pos])
+//@   requires Pos16(l)
 //@   ensures [inv] LexInv(l)
+//@   ensures [C08,C17:pos16] Pos16(l)
+//@   ensures [C08,C17:tokpos] PosOK(l.input, result.Pos) && PosOK(l.input, result.End)
+//@   ensures [vallen] len(result.Value) <= len(l.input)
 //@   ensures [progress] l.pos > old(l.pos)
 //@   ensures [span] result.Pos.Offset == old(l.pos) && result.End.Offset == l.pos && result.Type != TokenEOF
 //@   ensures [posvalid] result.Pos.Line >= 1 && result.Pos.Column >= 1 && result.Pos.Line <= len(l.input) + 1 && result.Pos.Column <= len(l.input) + 1
 //@   ensures [frame] Frame3(l)
 //@   modifies l.pos, l.column
-//@   loop 1 invariant LexInv(l) && Frame3(l) && start == old(l.pos) && start <= l.pos && startPos.Offset == old(l.pos) && startPos.Column == old(l.column)
+//@   loop 1 invariant LexInv(l) && Pos16(l) && Frame3(l) && start == old(l.pos) && start <= l.pos && startPos.Offset == old(l.pos) && startPos.Column == old(l.column)
 //@   loop 1 decreases len(l.input) - l.pos
-//@   loop 2 invariant LexInv(l) && Frame3(l) && start == old(l.pos) && start <= l.pos && startPos.Offset == old(l.pos) && startPos.Column == old(l.column)
+//@   loop 2 invariant LexInv(l) && Pos16(l) && Frame3(l) && start == old(l.pos) && start <= l.pos && startPos.Offset == old(l.pos) && startPos.Column == old(l.column)
 //@   loop 2 decreases len(l.input) - l.pos
 
 //@ func (*Lexer).scanLineStart
 //@   effects noalloc
 //@   props C06
 //@   requires LexInv(l) && l.pos < len(l.input)
+//@   requires Pos16(l)
 //@   ensures [inv] LexInv(l)
+//@   ensures [C08,C17:pos16] Pos16(l)
+//@   ensures [C08,C17:tokpos] PosOK(l.input, result.Pos) && PosOK(l.input, result.End)
+//@   ensures [vallen] len(result.Value) <= len(l.input)
 //@   ensures [progress] l.pos > old(l.pos)
 //@   ensures [span] old(l.pos) <= result.Pos.Offset && result.Pos.Offset <= result.End.Offset && result.End.Offset <= l.pos
 //@   ensures [posvalid] result.Pos.Line >= 1 && result.Pos.Column >= 1 && result.Pos.Line <= len(l.input) + 1 && result.Pos.Column <= len(l.input) + 1
@@ -337,7 +419,11 @@ package parser
 //@   props C06
 //@   effects noalloc
 //@   requires LexInv(l)
+//@   requires Pos16(l)
 //@   ensures [inv] LexInv(l)
+//@   ensures [C08,C17:pos16] Pos16(l)
+//@   ensures [C08,C17:tokpos] PosOK(l.input, result.Pos) && PosOK(l.input, result.End)
+//@   ensures [vallen] len(result.Value) <= len(l.input)
 //@   ensures [progress] old(l.pos) < len(l.input) ==> l.pos > old(l.pos)
 //@   ensures [atend] old(l.pos) >= len(l.input) ==> result.Type == TokenEOF && l.pos == old(l.pos)
 //@   ensures [span] old(l.pos) <= result.Pos.Offset && result.Pos.Offset <= result.End.Offset && result.End.Offset <= l.pos
@@ -345,7 +431,7 @@ package parser
 //@   ensures [eof] result.Type == TokenEOF ==> l.pos == len(l.input)
 //@   modifies l.pos, l.column, l.line, l.atStart
 
-//@ pred ParInv(p) := p != nil && p.lexer != nil && LexInv(p.lexer) && (p.current.Type == TokenEOF ==> p.lexer.pos == len(p.lexer.input))
+//@ pred ParInv(p) := p != nil && p.lexer != nil && LexInv(p.lexer) && Pos16(p.lexer) && (p.current.Type == TokenEOF ==> p.lexer.pos == len(p.lexer.input))
 //@ pred MuLe(p) := 2 * (len(p.lexer.input) - p.lexer.pos) + ite(p.current.Type != TokenEOF, 1, 0) <= old(2 * (len(p.lexer.input) - p.lexer.pos) + ite(p.current.Type != TokenEOF, 1, 0))
 //@ pred MuLt(p) := 2 * (len(p.lexer.input) - p.lexer.pos) + ite(p.current.Type != TokenEOF, 1, 0) < old(2 * (len(p.lexer.input) - p.lexer.pos) + ite(p.current.Type != TokenEOF, 1, 0))
 //@ pred Mu(p) := 2 * (len(p.lexer.input) - p.lexer.pos) + ite(p.current.Type != TokenEOF, 1, 0)
@@ -353,7 +439,7 @@ package parser
 
 //@ func (*Parser).advance
 //@   props C06
-//@   requires p != nil && p.lexer != nil && LexInv(p.lexer)
+//@   requires p != nil && p.lexer != nil && LexInv(p.lexer) && Pos16(p.lexer)
 //@   ensures [inv] ParInv(p) && PFrame(p)
 //@   ensures [le] MuLe(p)
 //@   ensures [lt] old(p.current.Type) != TokenEOF ==> MuLt(p)
